@@ -64,7 +64,7 @@ struct Seg { bool used = false, handle = false, anon = false, has_cb = false, lo
 struct World {
   std::vector<MB *> all; MB *slot[NB] = {nullptr, nullptr, nullptr, nullptr};
   Ref refs[NSLOT]; int nref = 0; Seg segs[NSEG]; int nseg = 0; std::vector<Inst> inst;
-  int opno = 0; uint32_t plain_pos = 0; bool any_empty_seg_chain = false; bool cycle = false;
+  int opno = 0; int next_fd = 0; uint32_t plain_pos = 0; bool any_empty_seg_chain = false; bool cycle = false;
   // statistics
   int n_ref = 0, n_mc = 0, n_seg_add = 0, n_sf_add = 0, n_sf_write = 0, n_move = 0, n_pullup_copy = 0, n_fail_add = 0, n_zombie = 0, n_page_cross = 0, n_cleanup = 0, n_segdeath = 0;
 };
@@ -302,6 +302,14 @@ struct Gen {
     normalize(dst.sp); dst.d += src.d; w.n_mc++;
   }
   // ---------------------------------------------------------------- segments
+  // descriptor numbers are never reused within a case: a segment whose moment of death the model does not know (empty chain)
+  // must not be confused with a later segment that happens to get the same number
+  int fresh_fd(int file) {
+    if (getenv("VERIF_C15_FDREUSE_PROBE")) {   // development probe: the old allocation, reporting a number handed out twice while its first holder is not known dead
+      int fd = dup(g_memfd[file]); if (fd < 0) abort();
+      for (int k = 0; k < w.nseg; k++) if (w.segs[k].used && !w.segs[k].fd_done && w.segs[k].fd == fd) verif_fail("harness/fd-number-reused", "fd %d given to a new segment while seg%d (same number) is not known dead", fd, k);
+      return fd; }
+    int fd = fcntl(g_memfd[file], F_DUPFD, w.next_fd); if (fd < 0) abort(); w.next_fd = fd + 1; return fd; }
   int new_seg_record() { if (w.nseg >= NSEG) return -1; int k = w.nseg++; w.segs[k] = Seg(); w.segs[k].used = true; return k; }
   // file range; returns false if nothing sensible can be drawn
   void draw_range(int f, size_t &off, long &len, bool allow_minus1) {
@@ -326,7 +334,7 @@ struct Gen {
     S.minus1 = len < 0; S.len = len < 0 ? FSIZE[S.file] - S.off : (size_t)len;
     S.flags = s.below(8);   // CLOSE_ON_FREE=1 DISABLE_MMAP=2 DISABLE_SENDFILE=4
     if (!(S.flags & 2) && s.chance(1, 3)) S.flags |= 2;   // mmap/munmap are very slow in this sandbox: 1/3 of the segments may map
-    S.fd = dup(g_memfd[S.file]); if (S.fd < 0) abort();
+    S.fd = fresh_fd(S.file);
     S.h = evbuffer_file_segment_new(S.fd, (ev_off_t)S.off, (ev_off_t)len, S.flags);
     TR("seg%d = file_segment_new(file%d fd %d, off %zu, len %ld, flags %u) -> %p", k, S.file, S.fd, S.off, len, S.flags, (void *)S.h);
     CHECK(S.h != nullptr, K("segment-new-failed"), "evbuffer_file_segment_new(file of %zu bytes, off %zu, len %ld, flags %u) failed", FSIZE[S.file], S.off, len, S.flags);
@@ -380,7 +388,7 @@ struct Gen {
     int k = new_seg_record(); if (k < 0) return; Seg &S = w.segs[k];
     S.anon = true; S.file = (int)s.below(NFILE); long len; draw_range(S.file, S.off, len, true);
     S.minus1 = len < 0; S.len = len < 0 ? FSIZE[S.file] - S.off : (size_t)len; S.flags = EVBUF_FS_CLOSE_ON_FREE;
-    S.fd = dup(g_memfd[S.file]); if (S.fd < 0) abort();
+    S.fd = fresh_fd(S.file);
     size_t L0 = b.d.size();
     int rc = evbuffer_add_file(b.eb, S.fd, (ev_off_t)S.off, (ev_off_t)len);
     TR("add_file(buf%d%s, file%d fd %d, off %zu, len %ld) -> %d", bi, b.drains ? " D" : "", S.file, S.fd, S.off, len, rc);
@@ -607,7 +615,7 @@ extern "C" int LLVMFuzzerTestOneInput(const uint8_t *data, size_t size) {
   // fd ledger restricted to the range a case can touch: every fd below the lowest free one, plus the next 16 numbers
   // (a case holds at most NSEG duplicated fds at a time; sim_fd_snapshot's 1024 fcntl calls twice per case dominated the run time)
   int fd_lo = dup(0); if (fd_lo < 0) abort(); close(fd_lo);
-  const int FD_SPAN = 16; unsigned char fd0[256], fd1[256]; int fd_n = fd_lo + FD_SPAN; if (fd_n > 256) fd_n = 256;
+  const int FD_SPAN = 16 + NSEG; w.next_fd = fd_lo; unsigned char fd0[256], fd1[256]; int fd_n = fd_lo + FD_SPAN; if (fd_n > 256) fd_n = 256;
   for (int i = 0; i < fd_n; i++) fd0[i] = fd_open(i);
   int64_t live0 = sim_mem_live_blocks;
   for (int i = 0; i < 3; i++) g.new_buf(i);
